@@ -28,6 +28,12 @@ THEOREMS = [
     "HedVerif.C05.merged_keeps_everything",
     "HedVerif.C05.rooted_relevel",
     "HedVerif.C05.child_keeps_shift",
+    "HedVerif.C05.loaded_descriptions_trimmed",
+    "HedVerif.C05.wiki_sections_roundtrip",
+    "HedVerif.C05.tsv_tags_roundtrip",
+    "HedVerif.C05.hedLast_same",
+    "HedVerif.C05.xml_tags_roundtrip",
+    "HedVerif.C05.cross_format",
     "HedVerif.C05.escape_roundtrip_partial",
     "HedVerif.C05.escape_counterexample",
 ]
@@ -687,6 +693,8 @@ def model_correspondence(ctx, impl, case, schema):
                          exp[bad] if bad is not None else len(exp))
         # 3. other sections: which entries are written, their lines
         ms = ans[2]
+        if not ms.get("wf", True):
+            ctx.count("section-entries-outside-secWF:" + case.get("schema", "?"))
         model_lines = [l for u in ms["unitClasses"] for l in u["lines"]] + [l for s in ms["sections"] for l in s["lines"]]
         if model_lines != flat:
             bad = next((i for i, (x, y) in enumerate(zip(model_lines, flat)) if x != y), None)
@@ -723,6 +731,271 @@ def model_correspondence(ctx, impl, case, schema):
             got = None if "err" in a or "dropped" in a else {"name": a["name"], "attrs": canon_attrs(a["attrs"]), "desc": a["desc"]}
             if got != want:
                 ctx.disagree("readEntry (real section line) = written entry", dict(c, line=line), a, want)
+
+
+# ------------------------------------------------------------------ abstract documents: TSV rows and XML tree
+
+def neutral_tsv_rows(impl, schema, merged):
+    """the Tag sheet the real writer saves, read back with the csv module only"""
+    import csv
+    d = impl.scratch()
+    schema.save_as_dataframes(d, merged)
+    try:
+        path = os.path.join(d, os.path.basename(d) + "_Tag.tsv")
+        with open(path, encoding="utf-8", newline="") as f:
+            rows = list(csv.reader(f, delimiter="\t", quoting=csv.QUOTE_NONE))
+    finally:
+        shutil.rmtree(d, ignore_errors=True)
+    head = rows[0]
+    col = {c: head.index(c) for c in ("hedId", "Level", "rdfs:label", "omn:SubClassOf", "Attributes", "dc:description")}
+    return [[r[col["hedId"]], int(r[col["Level"]]), r[col["rdfs:label"]], r[col["omn:SubClassOf"]],
+             r[col["Attributes"]], r[col["dc:description"]]] for r in rows[1:]]
+
+
+def neutral_xml_forest(text):
+    """the <schema> element of saved XML as nested [name, description, [[attribute, [values]]], children]"""
+    def conv(n):
+        return [n.findtext("name"), n.findtext("description"),
+                [[a.findtext("name"), [v.text or "" for v in a.findall("value")]] for a in n.findall("attribute")],
+                [conv(c) for c in n.findall("node")]]
+    sch = ET.fromstring(text).find("schema")
+    return [conv(n) for n in sch.findall("node")]
+
+
+def model_documents(ctx, impl, case, schema, with_tsv=True):
+    """the model's abstract TSV rows / XML tree / wiki sections against what the real writers emit"""
+    tags = [m_entry(e) for e in schema.tags.all_entries]
+    for merged in modes_of(schema):
+        hdr = {"library": schema.library, "withStandard": schema.with_standard, "merged": merged}
+        c = dict(case, merged=merged)
+        mode = "merged" if merged else "unmerged"
+        w = impl.Schema2Wiki()
+        lines = w.process_schema(schema, merged)
+        secs = wiki_sections(lines)
+        sec_lines = [[l for l in s if l] for s in secs[2:7]]
+        reqs = [dict(op="c05.xml", entries=tags, **hdr), {"op": "c05.readsection", "lines": sec_lines[0], "units": True}] + \
+               [{"op": "c05.readsection", "lines": s} for s in sec_lines[1:]]
+        if with_tsv:
+            reqs.append(dict(op="c05.tsv", entries=tags, **hdr))
+        ans = ctx.model.batch(reqs)
+        ctx.case((json.dumps(case, sort_keys=True), "documents", merged), nontrivial=True)
+        lib_only = bool(schema.with_standard) and not merged
+        skip = ("inLibrary",) if w._strip_out_in_library else ()
+        written = [e for e in schema.tags.all_entries if not lib_only or "inLibrary" in e.attributes]
+        exp = [{"name": rel_name(e) if lib_only else e.name, "attrs": canon_attrs(m_attrs(e.attributes, skip)),
+                "desc": e.description or None} for e in written]
+
+        def canon_entries(lst):
+            return [{"name": b["name"], "attrs": canon_attrs(b["attrs"]), "desc": b["desc"]} for b in lst]
+
+        def first_bad(a, b):
+            return next((i for i, (x, y) in enumerate(zip(a, b)) if x != y), None if len(a) == len(b) else min(len(a), len(b)))
+        # XML tree
+        mx = ans[0]
+        real = neutral_xml_forest(schema.get_as_xml_string(merged))
+        if mx.get("tree") != real:
+            flat_m, flat_r = json.dumps(mx.get("tree"))[:0], None
+            ctx.disagree("toXmlTree (outputTags) = <schema> element of the saved XML", c,
+                         _first_tree_diff(mx.get("tree") or [], real), "see model field (left = model, right = real)")
+        else:
+            ctx.count(f"xml-tree-nodes:{mode}", len(written))
+        if mx.get("tree") is not None and canon_entries(mx["reread"]) != exp:
+            i = first_bad(canon_entries(mx["reread"]), exp)
+            ctx.disagree("ofXmlTree (toXmlTree tags) = the schema's tag entries", c,
+                         canon_entries(mx["reread"])[i] if i is not None and i < len(mx["reread"]) else len(mx["reread"]),
+                         exp[i] if i is not None and i < len(exp) else len(exp))
+        if not mx.get("wf", True):
+            ctx.count("entries-outside-xmlWF")
+        # wiki sections, read as whole sections by the model
+        exp_ucs = [(uc, [u for u in uc.units.values() if not lib_only or "inLibrary" in u.attributes])
+                   for uc in schema.unit_classes.values()]
+        exp_ucs = [(uc, us) for uc, us in exp_ucs if not lib_only or "inLibrary" in uc.attributes or us]
+
+        def ent(e, bare=False):
+            return {"name": e.name, "attrs": [] if bare else canon_attrs(m_attrs(e.attributes, skip)),
+                    "desc": None if bare else (e.description or None)}
+        want_units = [{"entry": ent(uc, lib_only and "inLibrary" not in uc.attributes), "units": [ent(u) for u in us]}
+                      for uc, us in exp_ucs]
+        got_units = ans[1].get("classes")
+        if got_units is not None:
+            got_units = [{"entry": canon_entries([u["entry"]])[0], "units": canon_entries(u["units"])} for u in got_units]
+        if got_units != want_units:
+            ctx.disagree("ofWikiUnits (real unit-class section) = unit classes with their units", c, ans[1] if got_units is None else
+                         next((g for g, x in zip(got_units, want_units) if g != x), len(got_units)), len(want_units))
+        for k, d in enumerate((schema.unit_modifiers, schema.value_classes, schema.attributes, schema.properties)):
+            want = [ent(e) for e in d.values() if not lib_only or "inLibrary" in e.attributes]
+            got = ans[2 + k].get("entries")
+            got = got if isinstance(got, str) else canon_entries(got)
+            if got != want:
+                ctx.disagree("ofWikiSection (real section lines) = section entries", dict(c, section=k), got if isinstance(got, str) else len(got), len(want))
+        ctx.count(f"wiki-sections-read:{mode}", 5)
+        # TSV rows
+        if with_tsv:
+            mt = ans[-1]
+            real_rows = neutral_tsv_rows(impl, schema, merged)
+            if mt.get("rows") != real_rows:
+                i = first_bad(mt.get("rows") or [], real_rows)
+                ctx.disagree("toTsvRows (outputTags) = Tag sheet of the saved TSV", c,
+                             (mt.get("rows") or [None])[i] if i is not None and i < len(mt.get("rows") or []) else len(mt.get("rows") or []),
+                             real_rows[i] if i is not None and i < len(real_rows) else len(real_rows))
+            else:
+                ctx.count(f"tsv-rows:{mode}", len(real_rows))
+            rr = mt.get("reread")
+            if isinstance(rr, str):
+                # an unmerged file with rooted tags needs the partner schema to be read: outside the model
+                if not (lib_only and rr == "needsPartner"):
+                    ctx.disagree("ofTsvRows (toTsvRows tags) = the schema's tag entries", c, rr, len(exp))
+                else:
+                    ctx.count("tsv-reread-needs-partner")
+            elif not lib_only and canon_entries(rr) != exp:
+                i = first_bad(canon_entries(rr), exp)
+                ctx.disagree("ofTsvRows (toTsvRows tags) = the schema's tag entries", c,
+                             canon_entries(rr)[i] if i is not None and i < len(rr) else len(rr), exp[i] if i is not None and i < len(exp) else len(exp))
+            if merged and not mt.get("resolvable", True):
+                ctx.disagree("short parent names resolve (hypothesis TsvResolvable of tsv_tags_roundtrip)", c, False, True)
+            if not mt.get("wf", True):
+                ctx.count("entries-outside-tsvWF:" + case.get("schema", "?"))
+
+
+def _first_tree_diff(a, b, path=""):
+    """first place where two nested forests differ (diagnostics)"""
+    for i, (x, y) in enumerate(zip(a, b)):
+        if x[:3] != y[:3]:
+            return {"at": f"{path}/{x[0]}", "model": x[:3], "real": y[:3]}
+        d = _first_tree_diff(x[3], y[3], f"{path}/{x[0]}")
+        if d:
+            return d
+    if len(a) != len(b):
+        return {"at": path, "model_children": len(a), "real_children": len(b)}
+    return None
+
+
+def impl_read_tsv_rows(impl, rows):
+    """the real `SchemaLoaderDF._read_schema` on a Tag sheet given as rows (a bare loader, no files)"""
+    import pandas as pd
+    from hed.schema.schema_io.df2schema import SchemaLoaderDF
+    from hed.schema.hed_schema import HedSchema
+    from hed.schema import hed_schema_df_constants as dc
+    ld = SchemaLoaderDF.__new__(SchemaLoaderDF)
+    ld._schema = HedSchema()
+    ld._schema.header_attributes = {"version": "0.0.1"}
+    ld.fatal_errors, ld.name, ld.library = [], "rows", ""
+    ld._loading_merged, ld.appending_to_schema = True, False
+    df = pd.DataFrame([{dc.hed_id: r[0], dc.level: str(r[1]), dc.name: r[2], dc.subclass_of: r[3], dc.attributes: r[4],
+                        dc.description: r[5], dc.equivalent_to: ""} for r in rows], columns=dc.tag_columns, dtype=str)
+    try:
+        ld._read_schema({dc.TAG_KEY: df})
+    except impl.HedFileError:
+        return "error"
+    except (TypeError, AttributeError, IndexError):
+        return "crash"
+    if ld.fatal_errors:
+        return "error"
+    return [{"name": e.name, "attrs": [list(x) for x in canon_attrs(m_attrs(e.attributes))], "desc": e.description}
+            for e in ld._schema.tags.all_entries]
+
+
+def impl_read_xml_forest(impl, forest):
+    """the real `SchemaLoaderXML._populate_tag_dictionaries` on an element tree built from a nested forest"""
+    from hed.schema.schema_io.xml2schema import SchemaLoaderXML
+    from hed.schema.hed_schema import HedSchema
+    sch = ET.Element("schema")
+
+    def build(parent, n):
+        e = ET.SubElement(parent, "node")
+        ET.SubElement(e, "name").text = n[0]
+        if n[1] is not None:
+            ET.SubElement(e, "description").text = n[1]
+        for k, vs in n[2]:
+            a = ET.SubElement(e, "attribute")
+            ET.SubElement(a, "name").text = k
+            for v in vs:
+                ET.SubElement(a, "value").text = v
+        for c in n[3]:
+            build(e, c)
+    for n in forest:
+        build(sch, n)
+    ld = SchemaLoaderXML.__new__(SchemaLoaderXML)
+    ld._schema = HedSchema()
+    ld._schema.header_attributes = {"version": "0.0.1"}
+    ld.fatal_errors, ld.name, ld.library = [], "tree", ""
+    ld._loading_merged, ld.appending_to_schema = True, False
+    try:
+        ld._populate_tag_dictionaries(sch)
+    except impl.HedFileError:
+        return "error"
+    return [{"name": e.name, "attrs": [list(x) for x in canon_attrs(m_attrs(e.attributes))], "desc": e.description}
+            for e in ld._schema.tags.all_entries]
+
+
+def gen_forest(rng, depth=0):
+    names = ["A", "B", "Item-1", "#", "Long name", "é", "x.y"]
+    out = []
+    for _ in range(rng.randint(0 if depth else 1, 3 if depth < 3 else 0)):
+        name = rng.choice(names if depth else [n for n in names if n != "#"])   # a root named '#' crashes the loader
+        attrs = []
+        for _ in range(rng.randint(0, 3)):
+            k = rng.choice(["suggestedTag", "takesValue", "relatedTag", "hedId", "x"])
+            vs = [rng.choice(["A", "B", "Item-1", "a b", "v1", "1.0"]) for _ in range(rng.choice([0, 0, 1, 1, 2, 3]))]
+            attrs.append([k, vs])
+        desc = rng.choice([None, None, "text", " padded ", "a, b=c", "  "])
+        out.append([name, desc, attrs, gen_forest(rng, depth + 1)])
+    return out
+
+
+def document_fuzz(ctx, impl, sample_rows, n_rows, n_trees):
+    """mutated Tag sheets and generated element trees: model readers = real readers"""
+    rng = ctx.rng
+    sheets = []
+    for _ in range(n_rows):
+        if not sample_rows:
+            break
+        start = rng.randrange(len(sample_rows))
+        # a consistent slice: keep every row whose parents are in the slice, starting from top-level rows
+        rows = [list(r) for r in sample_rows[start:start + rng.randint(3, 12)]]
+        known = {"HedTag"}
+        keep = []
+        for r in rows:
+            if r[3] in known:
+                keep.append(r)
+                known.add(r[2][:-2] if r[2].endswith("-#") else r[2])
+        rows = keep or [[r[0], 0, r[2], "HedTag", r[4], r[5]] for r in rows[:2]]
+        for _ in range(rng.randint(0, 2)):
+            r = rng.choice(rows)
+            k = rng.random()
+            if k < 0.2:
+                r[2] = r[2] + rng.choice(["-#", "#", " ", ""])
+            elif k < 0.35:
+                r[3] = rng.choice(["HedTag", "Nonexistent", r[2]])
+            elif k < 0.55:
+                r[4] = rng.choice(["", "takesValue", "a=b, a=c", "a, a=b", "x y", r[4] + ", extra=1", "hedId=HED_1"])
+            elif k < 0.7:
+                r[0] = rng.choice(["", "HED_0000001", "a,b", "True"])
+            elif k < 0.85:
+                r[5] = rng.choice(["", " padded ", "x", "  "])
+            else:
+                r[2] = rng.choice(["", "HedTag", r[2]])
+        sheets.append(rows)
+    trees = [gen_forest(rng) for _ in range(n_trees)]
+    ans = ctx.model.batch([{"op": "c05.readtsv", "rows": s} for s in sheets] + [{"op": "c05.readxml", "tree": t} for t in trees])
+    for s, a in zip(sheets, ans):
+        a = a["entries"]
+        if a in ("unresolvedParent", "needsPartner"):
+            ctx.count("tsv-fuzz:outside-model:" + a)
+            continue
+        r = impl_read_tsv_rows(impl, s)
+        m = ("crash" if a == "crash" else "error") if isinstance(a, str) else [{"name": b["name"], "attrs": [list(x) for x in canon_attrs(b["attrs"])], "desc": b["desc"]} for b in a]
+        ctx.case(("tsv-rows", json.dumps(s)), nontrivial=isinstance(r, list) and bool(r))
+        ctx.count("tsv-fuzz:" + (r if isinstance(r, str) else "ok"))
+        if m != r:
+            ctx.disagree("ofTsvRows = SchemaLoaderDF._read_schema", {"kind": "tsvrows", "rows": s}, m, r)
+    for t, a in zip(trees, ans[len(sheets):]):
+        r = impl_read_xml_forest(impl, t)
+        m = [{"name": b["name"], "attrs": [list(x) for x in canon_attrs(b["attrs"])], "desc": b["desc"]} for b in a["entries"]]
+        ctx.case(("xml-tree", json.dumps(t)), nontrivial=bool(r))
+        ctx.count("xml-fuzz:" + (r if isinstance(r, str) else "ok"))
+        if m != r:
+            ctx.disagree("ofXmlTree = SchemaLoaderXML._populate_tag_dictionaries", {"kind": "xmltree", "tree": t}, m, r)
 
 
 def impl_readline(impl, raw):
@@ -848,6 +1121,7 @@ def run_bundled(ctx, impl, name, files, via_file):
     check_schema(ctx, impl, case, schema, source, formats, via_file=via_file)
     if not via_file:
         model_correspondence(ctx, impl, case, schema)
+        model_documents(ctx, impl, case, schema, with_tsv=name not in LEGACY)
     return schema
 
 
@@ -895,6 +1169,7 @@ def run_edit(ctx, impl, name, files, ops, families=(), malformed=False, with_mod
     check_schema(ctx, impl, case, schema, xml_vocab(root), formats, families)
     if with_model and not families:
         model_correspondence(ctx, impl, case, schema)
+        model_documents(ctx, impl, case, schema, with_tsv=name not in LEGACY)
 
 
 BASE_CODES = {}
@@ -985,6 +1260,8 @@ def run(ctx):
             ctx.check_time()
         run_merged_refusal(ctx, impl)
         grammar_fuzz(ctx, impl, sample_lines, 400 if quick else 6000, 400 if quick else 6000)
+        document_fuzz(ctx, impl, neutral_tsv_rows(impl, impl.load_schema_version(QUICK[0]), True), 60 if quick else 1500,
+                      60 if quick else 1500)
         ctx.check_time()
         # probe families: one deterministic witness per registered finding (more in the thorough tier)
         for n in (QUICK[:1] if quick else QUICK):
@@ -992,8 +1269,8 @@ def run(ctx):
             for fam in FAMILIES:
                 run_edit(ctx, impl, n, files, [g.probe_op(fam)], families=(fam,))
         # generated edits
-        n_schemas = 14 if quick else 300
-        per = 3 if quick else 5
+        n_schemas = 10 if quick else 300
+        per = 4 if quick else 5
         pool = [n for n in names]
         for i in range(n_schemas):
             n = pool[i % len(pool)]
